@@ -247,3 +247,177 @@ def translate_module(module_name, specs, repo):
         for p in sp.get('_c19_extra') or []:
             info['declared_operations'].setdefault(p, 'the regex parameter of a callee, applied to the same text')
     return text, infos
+
+
+# --------------------------------------------------------------------------------------------------- self-test
+# CPython vs the generated definitions + the runtime's meaning of the declared operations, on every run.
+# Per function (`DRIVERS[lean_name]`): how a test case is encoded for the scratch Lean driver, what the driver
+# evaluates, and what CPython must give.
+
+_DRV_HEAD = r'''
+def showInts (l : List Int) : String := " ".intercalate (l.map toString)
+def parseInts (s : String) : Option (List Int) :=
+  ((s.trim.splitOn " ").filter (· ≠ "")).mapM String.toInt?
+
+/-- `n x1 .. xn rest` -> (the n items, rest) -/
+def takeN : List Int → Option (List Int × List Int)
+  | [] => none
+  | n :: r => if n < 0 ∨ r.length < n.toNat then none else some (r.take n.toNat, r.drop n.toNat)
+
+def pairsOf : List Int → List (Int × Int)
+  | a :: b :: r => (a, b) :: pairsOf r
+  | _ => []
+
+def encLines (ls : List (List Nat)) : List Int :=
+  (ls.length : Int) :: (ls.map (fun l => (l.length : Int) :: l.map (fun (c : Nat) => (c : Int)))).flatten
+
+def encSpans (ps : List (Int × Int)) : List Int :=
+  (ps.length : Int) :: (ps.map (fun p => [p.1, p.2])).flatten
+'''
+
+_DRV_TAIL = r'''
+partial def loop (h : IO.FS.Stream) (out : IO.FS.Stream) : IO Unit := do
+  let line ← h.getLine
+  if line.isEmpty then return
+  match parseInts line with
+  | some l => out.putStrLn ("R " ++ handle l)
+  | none => out.putStrLn "R bad-line"
+  loop h out
+
+def main : IO Unit := do
+  loop (← IO.getStdin) (← IO.getStdout)
+'''
+
+# case id 0: `0 <text> <spans as flat pairs>`  ->  the generated iter_splitlines on (text, spans) ++ the runtime's
+#            finditerSpans of the regenerated table on the text
+_DRV_CASES = {
+    'iter_splitlines': r'''
+  | 0 :: r =>
+    match takeN r with
+    | some (t, r2) =>
+      match takeN r2 with
+      | some (sp, _) =>
+        let text := t.map Int.toNat
+        showInts (encLines (Src.strutils.iter_splitlines text (pairsOf sp)) ++
+                  encSpans (PyRtC19.finditerSpans C19.Generated.lineEndings text))
+      | none => "bad"
+    | none => "bad"
+''',
+}
+
+ALPHABET = [10, 13, 11, 12, 0x85, 0x2028, 0x2029, 0x1c, 0x1d, 0x1e, 0x20, 0x61, 0x62, 0x7a, 0xe9, 0x1F600, 0xD800, 0]
+
+
+def _texts(rng, quick):
+    out = ['', '\n', '\r\n', '\r', 'a', 'a\n', '\na', '\r\n\r\n', '\n\r', 'a\r\nb\rc\nd', '\x0b\x0c\x85  ',
+           'ab\r', '\r\r\n\n', 'x ', '\x1c\x1d\x1e\n']
+    n = 300 if quick else 4000
+    for _ in range(n):
+        k = rng.choice([0, 1, 2, 3, 4, 6, 9, 14, 30])
+        w = rng.choice([1, 2, 5])           # weight of the break characters
+        out.append(''.join(chr(rng.choice(ALPHABET[:7] * w + ALPHABET)) for _ in range(k)))
+    return out
+
+
+def _enc_text(s):
+    return [len(s)] + [ord(c) for c in s]
+
+
+def _enc_lines(ls):
+    out = [len(ls)]
+    for l in ls:
+        out += [len(l)] + [ord(c) for c in l]
+    return out
+
+
+def _real_spans(mod, spec, text):
+    cfg = _cfg(spec)
+    (rname, _p), = list((cfg.get('regex') or {}).items())
+    g = cfg.get('group', 1)
+    return [(m.start(g), m.end(g)) for m in getattr(mod, rname).finditer(text)]
+
+
+def _cases_iter_splitlines(mod, spec, rng, quick):
+    """-> [(input tokens, expected output tokens, description)]"""
+    out = []
+    for t in _texts(rng, quick):
+        spans = _real_spans(mod, spec, t)
+        try:
+            want = _enc_lines(list(mod.iter_splitlines(t)))
+        except Exception as e:      # noqa: BLE001 - the generated definition is total: any exception is a mismatch
+            want = ['exc', type(e).__name__]
+        flat = [x for p in spans for x in p]
+        out.append(([0] + _enc_text(t) + [len(flat)] + flat, want + [len(spans)] + flat, repr(t)))
+    return out
+
+
+CASES = {'iter_splitlines': _cases_iter_splitlines}
+
+
+def selftest(pids, quick=False, seed=0, verbose=True):
+    """-> (number of mismatches, report)"""
+    import importlib
+    import srctie_specs
+    from bv import common
+    common.ensure_repo_on_path()
+    t0 = time.time()
+    specs = [sp for pid in pids for sp in srctie_specs.SPECS.get(pid, []) if sp.get('translator') == 'py2lean_c19']
+    files, infos = {}, []
+    for pid in pids:
+        f, i = py2lean.generate(pid, common.REPO)
+        files.update(f)
+        infos.extend(i)
+    ok = {i['lean_def'].split('.', 2)[2] for i in infos if not i.get('error')}
+    rng = random.Random('py2lean-c19-selftest-%d' % seed)
+    lines, meta, arms, imports = [], [], [], set()
+    for sp in specs:
+        name = sp['lean_name']
+        if name not in ok or name not in CASES:
+            continue
+        mod = importlib.import_module(sp['module'])
+        arms.append(_DRV_CASES[name])
+        imports.add('BoltonsVerif.Generated.Src_%s' % (sp.get('gen_file') or sp['module'].split('.')[-1]))
+        for toks, want, what in CASES[name](mod, sp, rng, quick):
+            lines.append(' '.join(map(str, toks)))
+            meta.append((name, want, what))
+    report = {'_mismatches': []}
+    if not lines:
+        return 0, report
+    src = ''.join('import %s\n' % m for m in sorted(imports)) + 'import BoltonsVerif.Generated.C19_LineEndings\n' \
+        'import BoltonsVerif.PyRtC19\n' + _DRV_HEAD + '\ndef handle : List Int → String\n' + ''.join(arms) \
+        + '  | _ => "bad"\n' + _DRV_TAIL
+    tmp = tempfile.mkdtemp(prefix='py2lean-c19-selftest-')
+    try:
+        drv = os.path.join(tmp, 'SrcSelfTestC19.lean')
+        with open(drv, 'w') as fh:
+            fh.write(src)
+        with common.BuildLock():
+            rc, out = common._run(['lake', 'build', 'BoltonsVerif.PyRtC19', 'BoltonsVerif.Generated.C19_LineEndings']
+                                  + sorted(imports))
+        if rc != 0:
+            raise common.InfraError('cannot build the generated C19 definitions: ' + out[-800:])
+        t1 = time.time()
+        p = subprocess.run(['lake', 'env', 'lean', '--run', drv], cwd=common.LEAN, input='\n'.join(lines) + '\n',
+                           stdout=subprocess.PIPE, stderr=subprocess.STDOUT, text=True, timeout=1800)
+        t_lean = time.time() - t1
+    finally:
+        shutil.rmtree(tmp, ignore_errors=True)
+    outs = [ln[2:] for ln in p.stdout.split('\n') if ln.startswith('R ')]
+    if p.returncode != 0 or len(outs) != len(lines):
+        raise common.InfraError('C19 scratch driver failed (rc %s, %d lines for %d inputs): %s' % (
+            p.returncode, len(outs), len(lines), p.stdout[-1500:]))
+    mismatches = []
+    for (name, want, what), got in zip(meta, outs):
+        r = report.setdefault(name, {'cases': 0, 'compared': 0, 'mismatches': 0})
+        r['cases'] += 1
+        r['compared'] += 1
+        if got.split() != [str(x) for x in want]:
+            r['mismatches'] += 1
+            mismatches.append((name, what, 'Python stream %s but Lean stream %s' % (' '.join(map(str, want)), got)))
+    report['_mismatches'] = [{'function': n, 'case': c, 'what': b} for n, c, b in mismatches[:5]]
+    report['_wall_s'] = round(time.time() - t0, 2)
+    report['_lean_s'] = round(t_lean, 2)
+    if verbose:
+        for name, r in report.items():
+            print(name, r)
+    return len(mismatches), report
